@@ -318,6 +318,21 @@ impl Database {
             }
         }
 
+        // Every transaction in the log that did not commit is rolled back: marked aborted,
+        // exactly as ROLLBACK does. A transaction of which only the END record is left ended
+        // before the last checkpoint; the header already knows how.
+        {
+            let mut pager = self.pager.write();
+            for tid in analysis.lsn_chains.keys() {
+                let unfinished =
+                    !analysis.needs_redo.contains(tid) && !analysis.ended.contains(tid);
+                if analysis.needs_undo.contains(tid) || unfinished {
+                    pager.mark_transaction_aborted(*tid);
+                }
+            }
+        }
+        self.coordinator.load_aborted_transactions();
+
         let (tx_ctx, logger) = Self::begin_transaction(
             self.coordinator.clone(),
             self.pager.clone(),
